@@ -816,7 +816,7 @@ def check_C12(tier, seed):
 
 def check_C13(tier, seed):
     out = generic_tess_check("C13", tier, seed, "; dump tokens of the two routes, integral lists vs stored values")
-    session_pipeline(out, tier, seed, 10 if tier == "quick" else 30, 4 if tier == "quick" else 5)
+    session_pipeline(out, tier, seed, 10 if tier == "quick" else 30, 4)
     return out.finish()
 
 
